@@ -519,8 +519,10 @@ def F2(ctx: Ctx) -> RuleResult:
                     key_t = e.target.index
             for t, p in norm_guards(pg):
                 if isinstance(t, Op) and t.op == 'in' and p and isinstance(t.args[1], DictT):
-                    d = dict(binds).get('dup')
-                    if d is not None and d == t.args[0]:
+                    # some variable records the repeated key, and the final raise tests that variable
+                    recorders = [n_ for n_, v_ in binds if v_ == t.args[0]]
+                    tested = {x.tag[5:] for o_ in raised for g_, _ in o_.guards for x in walk(g_) if isinstance(x, Opaque) and x.tag.startswith('loop:')}
+                    if set(recorders) & tested:
                         dup_ok = True
             if flow != 'end':
                 r.fail('metadata:loop', 'the annotation loop can stop early', fi.where)
